@@ -356,6 +356,110 @@ def field_path(e):
     return None
 
 
+def out_of_closure(ctx, body, e, depth=0):
+    """(body', e'): the expression re-rooted in the body that created the closure, when `e` is a field path rooted at a
+    captured variable (followed through nested closures); otherwise (body, e)"""
+    from . import sym as S_
+    if depth > 4 or body.kind != "closure":
+        return body, e
+    x = S_.strip_refs(e)
+    chain_ = []
+    while isinstance(x, tuple) and x and x[0] == "field":
+        chain_.append(x)
+        x = S_.strip_refs(x[1])
+    if not (isinstance(x, tuple) and x and x[0] == "upvar"):
+        return body, e
+    pb, pe = ctx.model.upvar_expr(body, x[1])
+    if pb is None:
+        return body, e
+    cur = pe
+    for f in reversed(chain_):
+        cur = (f[0], cur) + tuple(f[2:])
+    return out_of_closure(ctx, pb, cur, depth + 1)
+
+
+ITEM_NEUTRAL = ("iter", "into_iter", "iter_mut", "copied", "cloned", "rev", "filter", "take", "skip", "take_while", "skip_while",
+                "peekable", "by_ref", "fuse", "chain", "step_by", "inspect")
+
+
+def subst(e, f):
+    """rebuild expression `e`, replacing every sub-expression x for which f(x) is not None by f(x)"""
+    if not isinstance(e, tuple) or not e:
+        return e
+    r = f(e)
+    if r is not None:
+        return r
+    return tuple(subst(x, f) if isinstance(x, tuple) else x for x in e)
+
+
+def item_expr(ctx, body, it, depth=0):
+    """symbolic element of the iterator expression `it` (an adaptor chain in `body`):
+       ('item', X)   an element of the collection / slice X (X re-rooted out of closures, references stripped)
+       f(item)       for map(f): the closure's return expression with its parameter replaced by the upstream element
+    Returns (body', expr) or (None, None) when the chain is not understood."""
+    from . import sym as S_
+    if depth > 6:
+        return None, None
+    src, stages = chain(it)
+    cur_b, cur = out_of_closure(ctx, body, src)
+    cur = ("item", S_.strip_sites(S_.strip_refs(cur)))
+    for name, extra, call in stages:
+        if name in ITEM_NEUTRAL:
+            continue
+        if name == "map" and extra:
+            cb = closure_body(ctx, extra[0])
+            if cb is None:
+                return None, None
+            r = ctx.sym(cb).local(0)
+            item = cur
+
+            def f(x, cb=cb, item=item):
+                y = S_.strip_refs(x) if x and x[0] in ("ref", "deref") else x
+                if y == ("arg", 2):
+                    return item
+                if y and y[0] == "upvar":
+                    pb, pe = out_of_closure(ctx, cb, y)
+                    if pe is not y:
+                        return S_.strip_sites(S_.strip_refs(pe))
+                return None
+            cur = subst(r, f)
+            continue
+        if name == "enumerate":
+            cur = ("agg", "tuple", "", (("index-of", cur), cur), ())
+            continue
+        return None, None
+    return cur_b, cur
+
+
+def closure_param_item(ctx, cb):
+    """what the (single) parameter of closure `cb` stands for when the closure is an argument of an iterator adaptor
+    (map / flat_map / for_each / filter ..): the element of the upstream iterator, as item_expr describes it"""
+    c = ctx.model.creation.get(cb.id)
+    if c is None:
+        return None, None
+    pb, bi, si, st = c
+    psy = ctx.sym(pb)
+    for cbi, t in pb.calls():
+        if len(t["args"]) < 2:
+            continue
+        for ai, a in enumerate(t["args"][1:], 1):
+            if closure_body(ctx, psy.operand(a)) is cb:
+                m = (t.get("cn") or "").rsplit("::", 1)[-1]
+                if m in ("map", "flat_map", "for_each", "filter", "filter_map", "find", "any", "all", "take_while", "skip_while",
+                         "find_map", "position", "inspect", "fold"):
+                    return item_expr(ctx, pb, psy.operand(t["args"][0]))
+    return None, None
+
+
+def nested_closures(ctx, body, depth=3):
+    out = []
+    for c in ctx.facts.closures_of(body):
+        out.append(c)
+        if depth > 0:
+            out.extend(nested_closures(ctx, c, depth - 1))
+    return out
+
+
 def enum_switches(ctx, body):
     """[(bi, enum adt, {variant name: target block}, otherwise block)] for switches on an enum discriminant"""
     out = []
